@@ -176,10 +176,7 @@ func genOps(r *rng, n int) []op {
 				w = 2
 			}
 			dist := int64(r.intn(int(2*(w+2)+1))) - (w + 2)
-			cc := counter + dist
-			if cc < 0 {
-				cc = 0
-			}
+			cc := counter + dist // below counter 0 this wraps (uint64): native HOTP skips those steps, so their codes must be refused
 			code := refCode(key, uint64(cc), d, a)
 			if r.intn(6) == 0 {
 				b := []byte(code)
@@ -196,10 +193,7 @@ func genOps(r *rng, n int) []op {
 				w = 2
 			}
 			dist := int64(r.intn(int(2*(w+2)+1))) - (w + 2)
-			step := ts/per + dist
-			if step < 0 {
-				step = 0
-			}
+			step := ts/per + dist // near the epoch this wraps (uint64): native TOTP does visit the wrapped steps
 			code := refCode(key, uint64(step), d, a)
 			o = op{Target: target, Fn: "validateTOTP", Args: []jsArg{jstr(secret), jstr(code), jint(ts), jstr(ds), jstr(as), jint(skew), jint(per)}}
 		case 7:
